@@ -316,6 +316,20 @@ func init() {
 			if len(elems) == 1 {
 				return elems[0]
 			}
+			if sp, ok := a[1].(string); ok && sp == "" {
+				// joining with "" : empty elements do not matter (keeps a lone
+				// decimal-of-symbolic-integer element intact)
+				var ne []value
+				for _, e := range elems {
+					if s, ok := e.(string); ok && s == "" {
+						continue
+					}
+					ne = append(ne, e)
+				}
+				if len(ne) == 1 {
+					return ne[0]
+				}
+			}
 			sep := strCells(a[1])
 			var c []value
 			for j, e := range elems {
